@@ -520,7 +520,7 @@ def presence_by_flag(ctx):
                     ctx.violate(q, 'the branch `%s` (line %d) is decided by the truthiness of %s = %s: the value 0 counts as absent' % (nm.id, nm.lineno, nm.id, norm(d.value)[:70]), nm,
                                 'an EC-multiplied key with the lot/sequence flag and lot = 0, sequence = 0 is decrypted without the owner-entropy step: the right passphrase is refused')
     ctx.saw('%d truthiness tests on local names in the BIP38 functions: none on an integer decoded from the payload' % n)
-    ctx.floor(n, 5, 'truthiness tests')
+    ctx.floor(n, 3, 'truthiness tests')
 
 
 @PROP.obligation('C15.verify-network', canaries=[
@@ -557,3 +557,15 @@ def empty_passphrase(ctx):
                   ('keys:HDKey.__init__', 'password'), ('keys:HDKey._bip38_decrypt', 'password')],
             'a key encrypted with the empty passphrase (accepted by encrypt) cannot be decrypted with the same passphrase, or is encrypted under another one')
     ctx.floor(n, 12, 'reads of the passphrase')
+
+
+@PROP.obligation('C15.zero-valid', canaries=[
+    mut.replace_expr('keys', 'bip38_intermediate_password', 'lot is not None and sequence is not None', 'lot and sequence', 'sequence 0 taken for "no lot / sequence"', nth=0),
+])
+def zero_valid(ctx):
+    """BIP38 lot / sequence numbers: the sequence runs from 0 to 4095 - the range test of bip38_intermediate_password says so itself. No
+    test of the same function (or of any function of the module) treats a parameter whose accepted range includes 0 as absent when it
+    is falsy: with lot=100000, sequence=0 the EC-multiplied mode must produce the intermediate code of that lot and sequence."""
+    from .common_falsy import zero_valid as run
+    n = run(ctx, ['keys'], 'bip38_intermediate_password(p, lot=100000, sequence=0) raises "Both lot & sequence are required": the first key of every lot cannot be made')
+    ctx.floor(n, 100, 'functions of the keys module')
